@@ -5,7 +5,8 @@ import json, subprocess, sys
 from pathlib import Path
 
 rnd = sys.argv[1]
-ids = sys.argv[2:] or None
+style = "plain" if "--plain" in sys.argv else "subtle"
+ids = [a for a in sys.argv[2:] if not a.startswith("--")] or None
 props = [json.loads(l) for l in open("/verif/properties.jsonl")]
 man = json.load(open("/verif/MANIFEST.json"))
 na = {x["property_id"] for x in man.get("not_applicable", [])}
@@ -19,6 +20,9 @@ for p in props:
     for d in sorted(Path("/verif/seeded").glob(f"{pid}-*")):
         files = sorted({l.split(" b/")[1].strip() for l in (d / "patch.diff").read_text().splitlines() if l.startswith("diff --git")})
         earlier.append(f"'{d.name[len(pid) + 1:].replace('-', ' ')}' (in {', '.join(files)})")
+    STYLE = ("Good candidates are changes that a reviewer would wave through: a tidy-up, a micro-optimisation, a defensive tweak, a numpy idiom with a subtle default, an edit in a helper that the anchored code calls, or two edits at different sites that each look harmless alone. Prefer a change that needs TWO things to coincide."
+             if style == "subtle" else
+             "This time keep it PLAIN: the kind of slip that happens while editing or merging - a wrong variable of the same type, a swapped pair of arguments, an off-by-one in an index or a range, a condition inverted or weakened, a statement moved one line up or down or into/out of a loop or an if, a missing call (reset, copy, append), a stale value reused, a default changed, a wrong attribute of the right object. One or two lines. It must still slip past the repository's tests and show up only under the specific circumstance you name.")
     text = f"""You are helping to test how robust a verification effort is, by seeding ONE realistic bug into a Python library.
 
 Library: bancaditalia/black-it (toolkit for calibrating agent-based model parameters: samplers, loss functions, schedulers, checkpointing). A scratch git worktree of it is at {wt}. Work ONLY inside {wt}. Do NOT read or modify /repo or /verif (a different team works there; your change must be independent of what they do).
@@ -37,7 +41,7 @@ STATEMENT: {p['statement']}
 QUANTIFIER: {p['quantifier']['text']}
 ---
 
-NOTE: other contributors already seeded these changes for this property: {'; '.join(earlier)}. Yours must be DIFFERENT IN NATURE from all of them: another clause of the property if it has several, another code site, another kind of trigger. Good candidates are changes that a reviewer would wave through: a tidy-up, a micro-optimisation, a defensive tweak, a numpy idiom with a subtle default, an edit in a helper that the anchored code calls, or two edits at different sites that each look harmless alone. Prefer a change that needs TWO things to coincide (e.g. an option value AND a particular history, a fault AND a later operation, a resume AND a specific sampler state, a dtype AND a value pattern).
+NOTE: other contributors already seeded these changes for this property: {'; '.join(earlier)}. Yours must be at a code site and with a trigger that none of them used. {STYLE}
 
 Task: make ONE source change under {wt}/black_it/ such that
  (a) the package still imports and runs,
